@@ -23,6 +23,10 @@ generate(repo) -> ({"S_mlir.v": coq_text}, report)"""
 import ast
 import hashlib
 import os
+import sys
+
+sys.path.insert(0, os.path.dirname(os.path.dirname(os.path.abspath(__file__))))
+import py2v  # noqa: E402
 
 BASE = "sparse/mlir_backend"
 
@@ -86,16 +90,20 @@ ARR = {"indptr": 0, "indices": 1, "data": 2, "pos": 3, "row": 4, "col": 5, "_": 
 
 
 def _hold_ref_edges(fn):
-    """[(owner text, obj text, loop iterable text or None)] for every _hold_ref call inside fn"""
+    """[(owner text, obj text, loop target, loop iterable)] for the _hold_ref calls made UNCONDITIONALLY by fn:
+    only `for` loops that are direct statements of the function body count.  Returns (edges, all_unconditional):
+    a _hold_ref call anywhere else (under an `if`, in a nested block) makes all_unconditional False."""
     out = []
-    for node in ast.walk(fn):
-        if isinstance(node, ast.For):
-            for c in _calls(node, "_hold_ref"):
-                _need(len(c.args) == 2 and not c.keywords, "_hold_ref: unexpected arguments")
-                out.append((_u(c.args[0]), _u(c.args[1]), _u(node.target), _u(node.iter)))
+    for node in fn.body:
+        if isinstance(node, ast.For) and not node.orelse:
+            for st in node.body:
+                if isinstance(st, ast.Expr) and isinstance(st.value, ast.Call) and _calls(st, "_hold_ref") \
+                        and st.value in _calls(st, "_hold_ref"):
+                    c = st.value
+                    _need(len(c.args) == 2 and not c.keywords, "_hold_ref: unexpected arguments")
+                    out.append((_u(c.args[0]), _u(c.args[1]), _u(node.target), _u(node.iter)))
     n_all = len(_calls(fn, "_hold_ref"))
-    _need(n_all == len(out), "_hold_ref call outside a for loop in " + fn.name)
-    return out
+    return out, n_all == len(out)
 
 
 def extract(repo):
@@ -131,9 +139,9 @@ def extract(repo):
     facts["site_owns_default"] = kw["owns_memory"].value
     st = _func(gct, "Storage")
     gca = _func(st, "get_constituent_arrays")
-    e = _hold_ref_edges(gca)
+    e, uncond = _hold_ref_edges(gca)
     # view -> storage : for arr in arrays: _hold_ref(arr, self), arrays being the returned tuple of views
-    ok = (len(e) == 1 and e[0][0] == e[0][2] and e[0][1] == "self" and e[0][3] == "arrays"
+    ok = (uncond and len(e) == 1 and e[0][0] == e[0][2] and e[0][1] == "self" and e[0][3] == "arrays"
           and _u(gca.body[-1]) == "return arrays"
           and "arrays = tuple((ranked_memref_to_numpy(field) for field in self.get__fields_()))" in _u(gca))
     _need(len(e) <= 1, "get_constituent_arrays: unexpected _hold_ref calls")
@@ -141,11 +149,11 @@ def extract(repo):
           "get_constituent_arrays: views no longer built from every field")
     facts["site_edge_view_storage"] = bool(ok)
     fca = _func(st, "from_constituent_arrays")
-    e = _hold_ref_edges(fca)
+    e, uncond = _hold_ref_edges(fca)
     _need(len(e) <= 1, "from_constituent_arrays: unexpected _hold_ref calls")
     _need("storage = cls(*(numpy_to_ranked_memref(arr) for arr in arrs))" in _u(fca),
           "from_constituent_arrays: storage no longer built from memrefs of the arrays")
-    ok = (len(e) == 1 and e[0][0] == "storage" and e[0][1] == e[0][2] and e[0][3] == "arrs"
+    ok = (uncond and len(e) == 1 and e[0][0] == "storage" and e[0][1] == e[0][2] and e[0][3] == "arrs"
           and _u(fca.body[-1]) == "return storage")
     facts["site_edge_storage_input"] = bool(ok)
     # __del__ only under `if owns_memory:` and freeing every field
@@ -319,6 +327,133 @@ def extract(repo):
     return facts, rep
 
 
+# ------------------------------------------------------------------ _determine_format by translation
+DF_HEADER = ("(* GENERATED by tools/sitegen/mlir.py from formats._determine_format / _get_sparse_dense_levels — "
+             "do not edit.\n   Scalar decision code is translated by tools/py2v.py (class Tr); every other statement is "
+             "pinned by its exact text\n   (a change raises SiteError = broken obligation). *)\n"
+             "From Verif Require Import Py PyExt.\nFrom Coq Require Import ZArith List.\nImport ListNotations.\n"
+             "Open Scope Z_scope.\n\n")
+
+
+def _pin(stmt, text, what):
+    got = ast.unparse(stmt)
+    _need(got == text, f"{what}: statement changed:\n  expected: {text}\n  found:    {got}")
+
+
+def _frag(name, params, stmts, result, extern=None):
+    tr = py2v.Tr({}, extern or {})
+    if isinstance(result, list):
+        tail = lambda env: "Ok (VTuple [%s])" % "; ".join(py2v.cname(v) for v in result)  # noqa: E731
+    elif result is None:
+        tail = lambda env: "Ok VNone"  # noqa: E731
+    else:
+        tail = lambda env: "Ok " + py2v.cname(result)  # noqa: E731
+    try:
+        body = tr.S(list(stmts), set(params), tail)
+    except py2v.Unsupported as ex:
+        raise SiteError(f"{name}: not translatable: {ex}") from ex
+    missing = set((extern or {}).keys()) - tr.used_extern
+    _need(not missing, f"{name}: extern keys not found in the source: {sorted(missing)}")
+    seg = "\n".join(ast.unparse(x) for x in stmts).replace("(*", "( *").replace("*)", "* )")
+    args = " ".join(f"({py2v.cname(p_)} : pyv)" for p_ in params)
+    return (f"(* {name}: translated from\n{seg}\n*)\nDefinition {name} {args} : res pyv :=\n{body}.\n")
+
+
+def _ret(expr):
+    return ast.Return(value=expr)
+
+
+def extract_detfmt(repo):
+    t, _h = _parse(repo, "formats.py")
+    out = [DF_HEADER]
+    df = _func(t, "_determine_format")
+    sig = ast.unparse(df.args)
+    _need(sig == "*formats: ConcreteFormat, dtype: DType, union: bool, out_ndim: int | None=None",
+          f"_determine_format signature changed: {sig}")
+    body = [x for x in df.body if not (isinstance(x, ast.Expr) and isinstance(x.value, ast.Constant))]
+    _need(len(body) == 13, f"_determine_format: expected 13 statements, found {len(body)}")
+    # -- 0: the empty case
+    s0 = body[0]
+    _need(isinstance(s0, ast.If) and ast.unparse(s0.test) == "len(formats) == 0" and not s0.orelse and len(s0.body) == 2,
+          "_determine_format: empty-case guard changed")
+    out.append(_frag("g_df_empty_ndim", ["out_ndim"], [s0.body[0]], "out_ndim"))
+    r0 = s0.body[1]
+    _need(isinstance(r0, ast.Return) and isinstance(r0.value, ast.Call)
+          and ast.unparse(r0.value.func) == "get_concrete_format" and not r0.value.args,
+          "_determine_format: empty-case return changed")
+    kws = {k.arg: k.value for k in r0.value.keywords}
+    _need({k: ast.unparse(v) for k, v in kws.items() if k != "levels"}
+          == {"order": "'C'", "pos_width": "64", "crd_width": "64", "dtype": "dtype"},
+          "_determine_format: empty-case keywords changed")
+    lv = kws["levels"]
+    _need(isinstance(lv, ast.BinOp) and isinstance(lv.op, ast.Mult) and ast.unparse(lv.right) == "out_ndim"
+          and isinstance(lv.left, ast.Tuple) and len(lv.left.elts) == 1 and isinstance(lv.left.elts[0], ast.Call)
+          and ast.unparse(lv.left.elts[0].func) == "Level" and len(lv.left.elts[0].args) == 1,
+          "_determine_format: empty-case levels expression changed")
+    out.append(_frag("g_df_empty_level", ["union"], [_ret(lv.left.elts[0].args[0])], None,
+                     {"LevelFormat.Dense": "Ok (VInt 0)", "LevelFormat.Compressed": "Ok (VInt 1)"}))
+    # -- 1..6: initialisation
+    _pin(body[1], "if out_ndim is None:\n    out_ndim = max((fmt.rank for fmt in formats))", "_determine_format[1]")
+    _pin(body[2], "pos_width = 0", "_determine_format[2]")
+    _pin(body[3], "crd_width = 0", "_determine_format[3]")
+    _need(isinstance(body[4], ast.Assign) and ast.unparse(body[4].targets[0]) == "counter",
+          "_determine_format[4]: counter assignment changed")
+    out.append(_frag("g_df_counter", ["union"], [_ret(body[4].value)], None,
+                     {"_count_sparse_levels": "Ok (VInt 1)", "_count_dense_levels": "Ok (VInt 0)"}))
+    _pin(body[5], "n_counted = None", "_determine_format[5]")
+    _pin(body[6], "order = ()", "_determine_format[6]")
+    # -- 7: the loop
+    lp = body[7]
+    _need(isinstance(lp, ast.For) and ast.unparse(lp.target) == "fmt" and ast.unparse(lp.iter) == "formats"
+          and not lp.orelse and len(lp.body) == 4, "_determine_format: loop header/body length changed")
+    out.append(_frag("g_df_step_count", ["n_counted", "c"], [lp.body[0]], "n_counted", {"counter(fmt)": "Ok c"}))
+    out.append(_frag("g_df_step_pos", ["pos_width", "w"], [lp.body[1]], "pos_width", {"fmt.pos_width": "Ok w"}))
+    out.append(_frag("g_df_step_crd", ["crd_width", "w"], [lp.body[2]], "crd_width", {"fmt.crd_width": "Ok w"}))
+    _pin(lp.body[3], "if order != 'C':\n    if fmt.order[:len(order)] == order:\n        order = fmt.order\n"
+                     "    elif order[:len(fmt.order)] != fmt.order:\n        order = 'C'", "_determine_format: order update")
+    # -- 8: order completion
+    _pin(body[8], "if not isinstance(order, str):\n    order = order + tuple(range(len(order), out_ndim))\n"
+                  "    order = order[:out_ndim]", "_determine_format[8]")
+    # -- 9, 10: clamp and n_sparse
+    out.append(_frag("g_df_nsparse", ["out_ndim", "n_counted", "union"], [body[9], body[10]], "n_sparse"))
+    _pin(body[11], "levels = _get_sparse_dense_levels(n_sparse=n_sparse, ndim=out_ndim)", "_determine_format[11]")
+    _pin(body[12], "return get_concrete_format(levels=levels, order=order, pos_width=pos_width, crd_width=crd_width, "
+                   "dtype=dtype)", "_determine_format[12]")
+    # -- _get_sparse_dense_levels
+    g = _func(t, "_get_sparse_dense_levels")
+    _need(ast.unparse(g.args) == "*, n_sparse: int | None=None, n_dense: int | None=None, ndim: int | None=None",
+          "_get_sparse_dense_levels signature changed")
+    gb = list(g.body)
+    _need(len(gb) == 8, f"_get_sparse_dense_levels: expected 8 statements, found {len(gb)}")
+    _need(isinstance(gb[0], ast.If) and all(isinstance(x, ast.Assert) for x in gb[0].body) and not gb[0].orelse,
+          "_get_sparse_dense_levels: argument-count guard changed")
+    out.append(_frag("g_gsdl_guard", ["n_sparse", "n_dense", "ndim"], [_ret(gb[0].test)], None))
+    out.append(_frag("g_gsdl_fill", ["n_sparse", "n_dense", "ndim"], gb[1:4], ["n_sparse", "n_dense", "ndim"]))
+    _need(all(isinstance(x, ast.Assert) and x.msg is None for x in gb[4:7]), "_get_sparse_dense_levels: asserts changed")
+    conj = ast.BoolOp(op=ast.And(), values=[x.test for x in gb[4:7]])
+    out.append(_frag("g_gsdl_ok", ["ndim", "n_dense", "n_sparse"], [_ret(conj)], None))
+    _pin(gb[7], "return (Level(LevelFormat.Dense),) * n_dense + (Level(LevelFormat.Compressed),) * n_sparse",
+         "_get_sparse_dense_levels: return")
+    # -- helpers pinned
+    _pin(_func(t, "_is_sparse_level").body[-1], "return LevelFormat.Dense != lvl", "_is_sparse_level")
+    _pin(_func(t, "_count_sparse_levels").body[-1], "return sum((_is_sparse_level(lvl) for lvl in format.levels))",
+         "_count_sparse_levels")
+    _pin(_func(t, "_count_dense_levels").body[-1], "return sum((not _is_sparse_level(lvl) for lvl in format.levels))",
+         "_count_dense_levels")
+    gc = _func(t, "get_concrete_format")
+    src = ast.unparse(gc)
+    _need("if order == 'C':\n            order = tuple(range(len(levels)))" in src
+          and "if order == 'F':\n            order = tuple(reversed(range(len(levels))))" in src,
+          "get_concrete_format: order strings changed")
+    pi = _func(t, "ConcreteFormat.__post_init__")
+    _need(len(pi.body) == 1 and isinstance(pi.body[0], ast.If)
+          and ast.unparse(pi.body[0].test) == "sorted(self.order) != list(range(self.rank))"
+          and ast.unparse(pi.body[0].body[0]).startswith("raise ValueError("), "ConcreteFormat.__post_init__ changed")
+    _pin(_func(t, "ConcreteFormat.rank").body[-1], "return self.storage_rank", "ConcreteFormat.rank")
+    _pin(_func(t, "ConcreteFormat.storage_rank").body[-1], "return len(self.levels)", "ConcreteFormat.storage_rank")
+    return "\n".join(out)
+
+
 def render(facts):
     L = ["(* GENERATED by tools/sitegen/mlir.py from /repo/sparse/mlir_backend — do not edit. *)",
          "From Coq Require Import ZArith List Bool.", "Import ListNotations.", "Open Scope Z_scope.", ""]
@@ -339,13 +474,21 @@ def render(facts):
 def generate(repo):
     facts, rep = extract(repo)
     rep["facts"] = {"status": "ok", **{k: (v if not isinstance(v, list) else list(v)) for k, v in facts.items()}}
-    return {"S_mlir.v": render(facts)}, rep
+    try:
+        df = extract_detfmt(repo)
+        rep["_determine_format"] = {"status": "ok", "hash": rep["_determine_format"]["hash"],
+                                    "note": "scalar decisions translated (S_mlir_df.v), other statements pinned by text"}
+    except SiteError as ex:
+        df = DF_HEADER + f"(* TRANSLATION FAILED: {ex} *)\n"
+        rep["_determine_format"] = {"status": "failed", "error": str(ex)}
+    return {"S_mlir.v": render(facts), "S_mlir_df.v": df}, rep
 
 
 if __name__ == "__main__":
     import sys
     files, rep = generate(sys.argv[1] if len(sys.argv) > 1 else "/repo")
     out = os.path.join(os.path.dirname(os.path.dirname(os.path.dirname(os.path.abspath(__file__)))), "coq", "Gen", "S_mlir.v")
-    with open(out, "w") as f:
-        f.write(files["S_mlir.v"])
-    print(files["S_mlir.v"])
+    for name, text in files.items():
+        with open(os.path.join(os.path.dirname(out), name), "w") as f:
+            f.write(text)
+        print(text)
